@@ -93,8 +93,14 @@ def observe_calls(fns, V, x):
             vj = call(fns["iterative"][0], x.astype(np.int64))
             ref_ = out.get("evaluate")
             if ref_ is not None and abs(ref_) < 1e9:
-                out["int:compiled(int64 array)"] = vi
-                out["int:iterative(int64 array)"] = vj
+                # ... and only where an exact-integer run of the same callable shows that no intermediate comes near 2**63; where that
+                # cannot be established the observation is kept only if it agrees with the floating one (nothing to excuse then)
+                fl_ = out.get("compiled")
+                agrees = (vi is not None and vj is not None and fl_ is not None and abs(vi - fl_) <= 1e-9 * max(1.0, abs(fl_))
+                          and abs(vj - fl_) <= 1e-9 * max(1.0, abs(fl_)))
+                if agrees or common.int64_cannot_wrap(fns["compiled"][0], x):
+                    out["int:compiled(int64 array)"] = vi
+                    out["int:iterative(int64 array)"] = vj
         return out
 
 
